@@ -102,6 +102,7 @@ func Err(name string, m message.Error) Outcome { return Outcome{Name: name, Msg:
 
 type Host struct {
 	StartupFailures int32 // that many of the next STARTUPs are answered with an IS_BOOTSTRAPPING error
+	MaxVersion      int32 // when non-zero, new connections to this host are refused versions above it (a node of an older release)
 	Idx             int   // 1-based
 	IP              string
 	c               *Cluster
@@ -125,6 +126,7 @@ type Conn struct {
 	muted       int32
 	closed      int32
 	started     bool
+	ready       int32 // 1 once STARTUP was answered READY
 	sysPeers    int32 // number of system.peers results sent on this connection
 }
 
@@ -673,11 +675,15 @@ func (x *Conn) handle(hdr *frame.Header, raw []byte) {
 			return
 		}
 	}
-	if c.cfg.MaxVersion != 0 && (hdr.Version > c.cfg.MaxVersion) {
+	maxVer := c.cfg.MaxVersion
+	if hv := primitive.ProtocolVersion(atomic.LoadInt32(&x.Host.MaxVersion)); hv != 0 && (maxVer == 0 || hv < maxVer) && atomic.LoadInt32(&x.ready) == 0 {
+		maxVer = hv // a node of an older release: applies to connections that have not completed their STARTUP yet
+	}
+	if maxVer != 0 && (hdr.Version > maxVer) {
 		ev.Note = "unsupported-version"
 		c.log.Add(ev)
 		x.started = false
-		x.sendMsgVer(c.cfg.MaxVersion, hdr.StreamId, &message.ProtocolError{ErrorMessage: fmt.Sprintf("Invalid or unsupported protocol version (%d)", hdr.Version)}, Outcome{Name: "ProtocolError:unsupported"}, "reply")
+		x.sendMsgVer(maxVer, hdr.StreamId, &message.ProtocolError{ErrorMessage: fmt.Sprintf("Invalid or unsupported protocol version (%d)", hdr.Version)}, Outcome{Name: "ProtocolError:unsupported"}, "reply")
 		return
 	}
 	if decErr != nil {
@@ -751,6 +757,7 @@ func (x *Conn) handle(hdr *frame.Header, raw []byte) {
 			x.sendMsg(hdr.StreamId, &message.ProtocolError{ErrorMessage: "Unknown compression algorithm: " + comp}, Outcome{Name: "ProtocolError:startup"}, "reply")
 			return
 		}
+		atomic.StoreInt32(&x.ready, 1)
 		x.sendMsg(hdr.StreamId, &message.Ready{}, Outcome{Name: "Ready"}, "reply")
 		x.smu.Lock()
 		x.compression = comp
